@@ -4,9 +4,10 @@ import Comdex.Model.Guards
 
 Lines (tab separated):
   grd.begin handler scn                                                    starts a case (one delivery / dispatch / sweep)
-  grd.msg   handler scn owner names admin brk esm price base outcome parentEmpty branchClean victimSame
+  grd.msg   handler scn owner names admin brk esm needs off mode base outcome parentEmpty branchClean victimSame
+            needs = comma list of the assets whose price record the handler was observed to read (store tracer, all clear);
+            off = comma list of the assets whose feed is off; mode ∈ {inactive (IsPriceActive=false), missing (no record)}
             owner/names/admin/brk/base/parentEmpty/branchClean/victimSame ∈ {0,1}; esm ∈ {none,in,after};
-            price ∈ {1 (every needed price active), 0 (none), p (some)};
             outcome ∈ {ok,err,panic}
   grd.wasm  variant chain senderKind sender base outcome diffEmpty        outcome ∈ {ok,err:guard,err:inner,panic}
   grd.sweep sweep app brk esm base started appDiffEmpty                    started = number of new liquidations / auctions
@@ -24,9 +25,16 @@ def init : St := {}
 
 def b? (s : String) : Option Bool := parseBool? s
 
-def handleMsg (seq handler scn : String) (owner names admin brk : Bool) (esm : String) (priceS : String) (base : Bool)
+def csv (s : String) : List String := if s == "" then [] else s.splitOn ","
+
+def handleMsg (seq handler scn : String) (owner names admin brk : Bool) (esm : String) (needsS offS mode : String) (base : Bool)
     (outcome : String) (parentEmpty branchClean victimSame : Bool) : List String :=
-  -- price: "1" all needed prices active, "0" none, "p" some (then WHICH lookup fails first is not known to the model)
+  -- needs: the assets whose price record the handler was observed to read; off: the assets whose feed is off (inactive or
+  -- missing). priceS: "1" no needed price is off, "0" all of them are, "p" some (then WHICH lookup fails first is not
+  -- known to the model)
+  let needs := csv needsS
+  let hit := needs.filter (csv offS).contains
+  let priceS := if hit.isEmpty then "1" else if hit.length == needs.length then "0" else "p"
   let price := priceS == "1"
   match find? handler with
   | none => [s!"BAD\t{seq}\thandler {handler} is not in the regenerated table"]
@@ -47,8 +55,12 @@ def handleMsg (seq handler scn : String) (owner names admin brk : Bool) (esm : S
     let m5 := if brk && Spec.breakerRefused.contains handler && bad then ["breaker_closed"] else []
     let m6 := if esm != "none" && Spec.esmRefused.contains handler && bad then ["esm_closed"] else []
     let m7 := if esm == "after" && Spec.coolOffRefused.contains handler && bad then ["cooloff"] else []
-    let m8 := if esm == "none" && !price && Spec.priceNeeded.contains handler && bad then ["price_fail_closed"] else []
-    d1 ++ d2 ++ d3 ++ ((m1 ++ m2 ++ m3 ++ m4 ++ m5 ++ m6 ++ m7 ++ m8).eraseDups.map fun m => s!"MON\t{seq}\t{m}")
+    -- ANY needed price inactive or missing (whatever subset) ⇒ the operation fails and changes nothing
+    let m8 := if esm == "none" && !price && bad then ["price_fail_closed"] else []
+    -- every operation the text's reading names as price dependent must have been seen reading a price
+    let d4 := if base && offS == "" && Spec.priceNeeded.contains handler && needs.isEmpty then
+        [s!"DIFF\t{seq}\t{handler} {scn}: expected to value amounts at oracle prices, but no price record was read ({mode})"] else []
+    d1 ++ d2 ++ d3 ++ d4 ++ ((m1 ++ m2 ++ m3 ++ m4 ++ m5 ++ m6 ++ m7 ++ m8).eraseDups.map fun m => s!"MON\t{seq}\t{m}")
 
 def handleWasm (seq variant chain kind sender : String) (base : Bool) (outcome : String) (diffEmpty : Bool) : List String :=
   match wasmFind? variant with
@@ -80,10 +92,10 @@ def handle (st : St) (seq : String) (f : List String) : St × List String :=
   let st' := { st with n := st.n + 1 }
   match f with
   | "grd.begin" :: _ => (st', [])
-  | ["grd.msg", handler, scn, owner, names, admin, brk, esm, price, base, outcome, pe, bc, vs] =>
+  | ["grd.msg", handler, scn, owner, names, admin, brk, esm, needs, off, mode, base, outcome, pe, bc, vs] =>
     match b? owner, b? names, b? admin, b? brk, b? base, b? pe, b? bc, b? vs with
     | some owner, some names, some admin, some brk, some base, some pe, some bc, some vs =>
-      (st', handleMsg seq handler scn owner names admin brk esm price base outcome pe bc vs)
+      (st', handleMsg seq handler scn owner names admin brk esm needs off mode base outcome pe bc vs)
     | _, _, _, _, _, _, _, _ => (st', [s!"BAD\t{seq}\tgrd.msg flags"])
   | ["grd.wasm", variant, chain, kind, sender, base, outcome, de] =>
     match b? base, b? de with
